@@ -74,8 +74,8 @@ func bufferLockSpec(p *core.Prog) core.LockSpec {
 	return core.LockSpec{
 		Pkgs: []string{"gossip/dagordering"},
 		Guarded: map[string]string{
-			"gossip/dagordering.event.released":         "gossip/dagordering.EventsBuffer.mu",
-			"gossip/dagordering.event.err":              "gossip/dagordering.EventsBuffer.mu",
+			"gossip/dagordering.event.released":           "gossip/dagordering.EventsBuffer.mu",
+			"gossip/dagordering.event.err":                "gossip/dagordering.EventsBuffer.mu",
 			"gossip/dagordering.EventsBuffer.incompletes": "gossip/dagordering.EventsBuffer.mu",
 		},
 		// incompletes is an immutable pointer to the internally synchronised wlru.Cache:
